@@ -661,7 +661,12 @@ struct LoadResult {
 
 // Presents `disk` (what the simulated disk durably holds) to Image(FILE*). `script` drives the
 // cookie reads (see vfs::Inode::read_script).
+bool g_load_by_name = false; // present the file through Image(filename) instead of Image(FILE*)
+
+LoadResult attempt_load_by_name(const string& disk, const std::vector<int>& script);
+
 LoadResult attempt_load(const string& disk, const std::vector<int>& script) {
+  if (g_load_by_name) return attempt_load_by_name(disk, script);
   LoadResult res;
   auto ino = std::make_shared<vfs::Inode>();
   ino->kind = vfs::Kind::REG;
@@ -692,6 +697,47 @@ LoadResult attempt_load(const string& disk, const std::vector<int>& script) {
   }
   res.leaked = window_close();
   res.read_errors = vfs::world().calls.errors;
+  return res;
+}
+
+// Same, through the filename constructor: the file lives at a path of the simulated disk, the library
+// opens (and must close) it itself.
+LoadResult attempt_load_by_name(const string& disk, const std::vector<int>& script) {
+  LoadResult res;
+  string path = "/sim/pics/in.img";
+  {
+    Quiet q;
+    auto ino = vfs::mkfile(path, disk);
+    ino->read_script = script;
+    res.pic.px.reserve(64 * 64);
+    res.what.reserve(256);
+  }
+  vfs::calls_reset();
+  size_t open_before = vfs::open_fd_count();
+  window_open();
+  {
+    try {
+      phosg::Image img(path);
+      {
+        Quiet q;
+        extract(img, res.pic);
+      }
+    } catch (const std::exception& e) {
+      Quiet q;
+      res.threw = true;
+      res.what = e.what();
+    } catch (...) {
+      Quiet q;
+      res.threw = true;
+      res.nonstd_exception = true;
+    }
+  }
+  res.leaked = window_close();
+  res.read_errors = vfs::world().calls.errors;
+  if (vfs::open_fd_count() != open_before) {
+    fail("load/file_left_open", res.threw ? "by_name/failed_load" : "by_name/successful_load",
+        string("Image(filename) left the file open after ") + (res.threw ? "a failed load: " + res.what : "a successful load"));
+  }
   return res;
 }
 
@@ -913,7 +959,12 @@ static void run() {
   if (enc.kind.find("BITFIELDS") != string::npos) VS_PROBE("bmp_bitfields_input");
   if (enc.kind.find("top-down") != string::npos) VS_PROBE("bmp_top_down_input");
 
-  // ---- fault arm
+  // ---- fault arm (one time in four the damaged file is presented through Image(filename))
+  g_load_by_name = choose(4, "arm.by_name") == 3;
+  if (g_load_by_name) VS_PROBE("faulty_file_loaded_by_filename");
+  struct ResetByName {
+    ~ResetByName() { g_load_by_name = false; }
+  } reset_by_name;
   unsigned arm = choose(5, "arm");
   switch (arm) {
     case 0:
@@ -1052,7 +1103,7 @@ int main(int argc, char** argv) {
       {"glibc stdio, zlib", "real"},
       {"disk / file", "stub: simulated inode behind fopencookie (vsim/vfs.cc): durable prefix, scripted read sizes and EIO, capacity (full disk), short writes"},
       {"PNG/BMP/PPM reference decoders and foreign-file encoders", "harness code in engines/sim_image.cc sharing no code with phosg"}};
-  e.expected_probes = {"independent_decode_checked", "width_not_multiple_of_4", "grayscale_input", "bmp_bitfields_input", "bmp_top_down_input", "torn_every_prefix_of_a_file", "save_hit_full_disk", "saved_by_filename", "loaded_by_filename", "largest_picture_64x64"};
+  e.expected_probes = {"independent_decode_checked", "width_not_multiple_of_4", "grayscale_input", "bmp_bitfields_input", "bmp_top_down_input", "torn_every_prefix_of_a_file", "save_hit_full_disk", "saved_by_filename", "loaded_by_filename", "largest_picture_64x64", "faulty_file_loaded_by_filename"};
   e.expected_faults = {"truncation", "EIO@read", "short_read", "short_write", "ENOSPC@capacity"};
   return driver_main(argc, argv, e);
 }
